@@ -114,7 +114,7 @@ impl TargetWatcher {
                             format!(
                                 "[{}]",
                                 itertools::join(
-                                    relevant_files.iter().map(|path| crate::verif::js(&path.to_string_lossy())),
+                                    relevant_files.iter().map(crate::verif::js_os),
                                     ","
                                 )
                             ),
